@@ -326,6 +326,86 @@ theorem merge_adds_and_spans (nCh nS : Nat) (old : List Peak) (q : Peak) (e : In
 example : (mergeOne 2 4 [⟨0, 3, 1, 6, [1, 5], 1, 0, [1, 2, 3, 0]⟩, ⟨4, 2, 2, 12, [2, 10], 2, 0, [4, 8, 0, 0]⟩]).toOption
     = some (⟨0, 4, 2, 18, [3, 15], 3, -1, [3, 3, 4, 8]⟩, 8) := by decide +kernel
 
+/-- **merge_conserves_waveform** (all time-sorted, non-overlapping constituents with positive `dt`): the merged
+peak is `store_downsampled_waveform` of a full-resolution buffer that integrates to the sum of the constituents'
+waveforms (each up-sampled to the common `dt`, zeros in the gaps); so the stored waveform PLUS the samples that
+down-sampling drops (D11) integrate to `Σ_k Σ data_k[:length_k]`. -/
+theorem merge_conserves_waveform (nCh nS : Nat) (old : List Peak) (q : Peak) (e : Int) (hnS : 0 < nS)
+    (hd : DisjointSorted old) (hdt : ∀ p ∈ old, 0 < p.dt) (h : mergeOne nCh nS old = .ok (q, e)) :
+    ∃ (p0 : Peak) (buf : List Rat), q = storeDownsampled p0 buf ∧ p0.data.length = nS ∧ buf.length = p0.length.toNat ∧
+      buf.sum = (old.map (·.wave.sum)).sum ∧
+      q.wave.sum + (droppedTail p0 buf).sum = (old.map (·.wave.sum)).sum :=
+  mergeOne_wave nCh nS old q e hnS hd hdt h
+
+/-- **merge_waveform_is_area_partial.** FULL statement wanted: the merged waveform integrates to the merged area
+(= Σ constituent areas). Proved part: it does whenever every constituent's waveform integrates to its area and
+down-sampling loses nothing (`NoTailLoss`: the factor divides the merged length or the dropped tail is zero).
+Missing: exactly the D11 case, see `merge_downsample_counterexample`. -/
+theorem merge_waveform_is_area_partial (nCh nS : Nat) (old : List Peak) (q : Peak) (e : Int) (hnS : 0 < nS)
+    (hd : DisjointSorted old) (hdt : ∀ p ∈ old, 0 < p.dt) (hcons : ∀ p ∈ old, p.wave.sum = p.area)
+    (h : mergeOne nCh nS old = .ok (q, e))
+    (ht : ∀ p0 buf, q = storeDownsampled p0 buf → p0.data.length = nS → buf.length = p0.length.toNat →
+            buf.sum = (old.map (·.wave.sum)).sum → NoTailLoss p0 buf) :
+    q.wave.sum = q.area := by
+  obtain ⟨p0, buf, h1, h2, h3, h4, h5⟩ := mergeOne_wave nCh nS old q e hnS hd hdt h
+  obtain ⟨_, _, _, _, _, _, ha, _⟩ := mergeOne_spec nCh nS old q e h
+  have hz : (droppedTail p0 buf).sum = 0 := by
+    rcases ht p0 buf h1 h2 h3 h4 with hdv | hz
+    · rw [droppedTail_nil_of_dvd p0 buf hdv]; rfl
+    · exact sum_zero_of_all_zero _ hz
+  rw [hz, Rat.add_zero] at h5
+  rw [h5, ha]
+  congr 1
+  exact List.map_congr_left hcons
+
+/-- D11 through `merge_peaks`: two adjacent peaks of 3 + 2 samples into a 4-sample buffer, 7 PE in the last
+sample: merged area 11, merged waveform `[2, 2]` -/
+theorem merge_downsample_counterexample :
+    (mergeOne 2 4 [⟨0, 3, 1, 3, [3, 0], 1, 0, [1, 1, 1, 0]⟩, ⟨3, 2, 1, 8, [8, 0], 1, 0, [1, 7, 0, 0]⟩]).toOption
+      = some (⟨0, 2, 2, 11, [11, 0], 2, -1, [2, 2, 0, 0]⟩, 5) := by decide +kernel
+
+example : DisjointSorted [⟨0, 3, 1, 6, [1, 5], 1, 0, [1, 2, 3, 0]⟩, ⟨4, 2, 2, 12, [2, 10], 2, 0, [4, 8, 0, 0]⟩] := by
+  simp [DisjointSorted, Peak.endt]
+
+/-! ## add_lone_hits -/
+
+/-- **add_lone_hits_spec.** If `add_lone_hits` returns: the lone hits are assigned by `_fc_in` (`fc`), which only
+ever names a peak that fully contains the hit (`fcIn_sound`); every peak keeps its time span; its area grows by the
+PE (`area · to_pe[channel]`) of exactly the hits assigned to it, `area_per_channel[c]` by those of channel `c`,
+and waveform sample `(lh.time − time) // dt` receives each of them. -/
+theorem add_lone_hits_spec (toPe : List Rat) (peaks out : List Peak) (lone : List Hit)
+    (h : addLoneHits toPe peaks lone = .ok out) :
+    let fc := fcIn (lone.map fun h => (h.time, h.endt)) (peaks.map fun p => (p.time, p.endt)) 0
+    out.length = peaks.length ∧
+    (∀ (n k : Nat), fc[n]? = some (some k) → ∃ (lh : Hit) (p : Peak), lone[n]? = some lh ∧ peaks[k]? = some p ∧ p.time ≤ lh.time ∧ lh.endt ≤ p.endt) ∧
+    (∀ k p, peaks[k]? = some p → ∃ q, out[k]? = some q ∧
+      q.time = p.time ∧ q.length = p.length ∧ q.dt = p.dt ∧
+      q.area = p.area + loneArea toPe (fc.zip lone) k ∧
+      (∀ c, q.apc.getD c 0 = p.apc.getD c 0 + loneApc toPe (fc.zip lone) k c p.apc.length) ∧
+      (∀ m, q.data.getD m 0 = p.data.getD m 0 + loneData toPe (fc.zip lone) p k m)) := by
+  intro fc
+  obtain ⟨h1, h2⟩ := addLoneLoop_spec toPe _ peaks out (addLoneHits_ok toPe peaks out lone h)
+  refine ⟨h1, ?_, ?_⟩
+  · intro n k hn
+    obtain ⟨a, c, e1, _, e3, e4, e5⟩ := fcIn_sound _ _ 0 n k hn
+    simp only [Nat.sub_zero, List.getElem?_map] at e1 e3
+    cases hl : lone[n]? with
+    | none => rw [hl] at e1; simp at e1
+    | some lh =>
+      cases hp : peaks[k]? with
+      | none => rw [hp] at e3; simp at e3
+      | some p =>
+        rw [hl] at e1; rw [hp] at e3
+        simp only [Option.map_some, Option.some.injEq] at e1 e3
+        subst e1; subst e3
+        exact ⟨lh, p, rfl, rfl, e4, e5⟩
+  · intro k p hp
+    obtain ⟨q, e1, e2, e3, e4, _, _, e7, e8, e9⟩ := h2 k p hp
+    exact ⟨q, e1, e2, e3, e4, e7, e8, e9⟩
+
+example : (addLoneHits [1, 2] [⟨0, 4, 2, 5, [5, 0], 1, 0, [1, 4, 0, 0]⟩] [⟨4, 1, 1, 1, 3, []⟩, ⟨9, 1, 1, 0, 1, []⟩]).toOption
+    = some [⟨0, 4, 2, 11, [5, 6], 1, 0, [1, 4, 6, 0]⟩] := by decide +kernel
+
 /-! ## replace_merged -/
 
 /-- **replace_merged_spec.** If `replace_merged` returns, then either nothing was to be merged and the array is
@@ -352,6 +432,26 @@ theorem replace_merged_spec (orig merge res : List Row) (h : replaceMerged orig 
 example : (replaceMerged [⟨0, 2, 0⟩, ⟨3, 5, 1⟩, ⟨5, 6, 2⟩, ⟨9, 10, 3⟩] [⟨3, 6, 100⟩]).toOption
     = some [⟨0, 2, 0⟩, ⟨3, 6, 100⟩, ⟨9, 10, 3⟩] := by decide +kernel
 example : WindowsOk 4 0 ([(⟨3, 6, 100⟩ : Row)].zip [(1, 3)]) := by simp [WindowsOk]
+
+/-- **replace_merged_sorted.** Under the preconditions of `replace_merged_spec` (well-formed windows), time-sorted
+originals and merged rows that start where the first original row of their window starts (what `merge_peaks`
+produces: `time` of the first constituent), the result of `replace_merged` is sorted by time. -/
+theorem replace_merged_sorted (orig merge res : List Row) (windows : List (Nat × Nat))
+    (hso : orig.Pairwise (fun a b => a.time ≤ b.time))
+    (htw : touchingWindows orig merge = .ok windows) (hne : merge ≠ [])
+    (hw : WindowsOk orig.length 0 (merge.zip windows)) (hm : MergedStartAtWindow orig (merge.zip windows))
+    (h : replaceMerged orig merge = .ok res) :
+    res.Pairwise (fun a b => a.time ≤ b.time) := by
+  rcases replace_merged_spec orig merge res h with ⟨he, _⟩ | ⟨w', hw', hres⟩
+  · exact absurd he hne
+  · rw [htw] at hw'
+    have : w' = windows := by simpa using hw'.symm
+    subst this
+    rw [hres hw]
+    exact replaceSpec_sorted orig hso _ 0 hw hm
+
+example : MergedStartAtWindow [⟨0, 2, 0⟩, ⟨3, 5, 1⟩, ⟨5, 6, 2⟩, ⟨9, 10, 3⟩] ([(⟨3, 6, 100⟩ : Row)].zip [(1, 3)]) := by
+  simp [MergedStartAtWindow]
 
 /-! ## index_of_fraction -/
 
@@ -393,35 +493,62 @@ theorem reach_index_is_first_crossing (A f : Rat) (xs : List Rat) (r : Rat) (h :
 
 example : computeIndexOfFraction [1, 0, 3] 3 4 [1/4, 1/2, 1] = [1, 7/3, 3] := by decide +kernel
 
+/-! ## compute_widths -/
+
+/-- **compute_widths_spec.** With `fr = widthFractions n_widths` (ascending, `2i+1` entries, symmetric about 1/2:
+`width_fractions_5`, `width_fractions_11`) and the area-fraction times `t_j = index_of_fraction(fr)[j]·dt` (each the
+defining first crossing, `index_of_fraction_spec`): median time = `t_i`, width `k` = `t_{i+k} − t_{i−k}` (the time
+between the `1/2 − w_k/2` and `1/2 + w_k/2` area fractions), area decile `k` from midpoint = `t_{2k} − t_i`. -/
+theorem compute_widths_spec (p : Peak) (nW i : Nat) (hodd : (widthFractions nW).length = 2 * i + 1) :
+    let times := (indexOfFraction p (widthFractions nW)).map (· * (p.dt : Rat))
+    (computeWidths p nW).1 = times.getD i 0 ∧
+    (∀ k, k ≤ i → (computeWidths p nW).2.1[k]? = some (times.getD (i + k) 0 - times.getD (i - k) 0)) ∧
+    (∀ k, (computeWidths p nW).2.2[k]? = (times[2 * k]?).map (· - times.getD i 0)) :=
+  computeWidths_spec p nW i hodd
+
+/-- the fractions for `n_widths = 5` (harness) and `11` (strax default): `k/8` resp. `k/20`, symmetric about 1/2 -/
+theorem width_fractions_5 : widthFractions 5 = [0, 1/8, 1/4, 3/8, 1/2, 5/8, 3/4, 7/8, 1] := by decide +kernel
+theorem width_fractions_11 : widthFractions 11 = (List.range 21).map (fun (k : Nat) => (k : Rat) / 20) := by decide +kernel
+
+example : computeWidths ⟨0, 3, 10, 4, [], 0, 0, [1, 0, 3]⟩ 5
+    = (70/3, [0, 10/3, 50/3, 70/3, 30], [-70/3, -40/3, 0, 10/3, 20/3]) := by decide +kernel
+
 /-! ## highest_density_region -/
 
-/-- **hdr_spec_partial.** FULL statement wanted: for every desired fraction `f` the reported intervals are the
-maximal runs of the SMALLEST level set `{i : data[i] > v}` (`v` a sample value) whose mass — above `v` when
-`only_upper_part` — is at least `f·Σdata`, all `-1` if they do not fit into the buffer, and the amplitude is the
-interpolated height.
-Proved part (all inputs): one row per fraction; every row is the whole range `[0, n)` or stems from a selection
-`max_to_min[:j]`, `1 ≤ j < n`; for every such selection the row has exactly `_buffer_size` slots and is — when
-the maximal runs fit — those runs followed by zero slots, and all `-1` when there are more runs than slots
-(`hdrRow_spec`, the code after the fix of D30); the runs cover exactly the selected indices, are non-empty and
-maximal; no unselected sample is higher than a selected one; selection + rest is a permutation of all indices.
-Missing: that `j` is the FIRST level whose mass suffices, and the amplitude formula (both are checked by the
-definitional oracle on the real code, amplitudes with tolerance 1e-5). -/
-theorem hdr_spec_partial (data fractions : List Rat) (upper : Bool) (bufSize : Nat) (rows : List (List (Int × Int) × Rat))
-    (h : highestDensityRegion data fractions upper bufSize = .ok rows) :
-    rows.length = fractions.length ∧
-    (∀ row ∈ rows, RowFromSelection data bufSize row ∨
-      row.1 = ((0 : Int), (data.length : Int)) :: List.replicate (bufSize - 1) ((0 : Int), (0 : Int))) ∧
-    (∀ j, let order := maxToMin data
-          let ind := sortNat (order.take j)
-          (hdrRow bufSize ind).length = bufSize ∧
-          ((runsOf ind).length ≤ bufSize → hdrRow bufSize ind =
-            ((runsOf ind).map fun r => ((r.1 : Int), (r.2 : Int))) ++ List.replicate (bufSize - (runsOf ind).length) (0, 0)) ∧
-          (bufSize < (runsOf ind).length → hdrRow bufSize ind = List.replicate bufSize (-1, -1)) ∧
-          runIndices (runsOf ind) = ind ∧ RunsSeparated (runsOf ind) ∧ ind.Perm (order.take j) ∧
-          (∀ a ∈ order.take j, ∀ b ∈ order.drop j, data.getD b 0 ≤ data.getD a 0) ∧
-          (order.take j ++ order.drop j).Perm (List.range data.length)) := by
-  refine ⟨(hdr_rows data fractions upper bufSize rows h).1, (hdr_rows data fractions upper bufSize rows h).2, ?_⟩
-  intro j
+/-- **hdr_spec** (full defining formula, all distributions, all ascending fraction lists, both modes, every
+buffer size). With the samples sorted from max to min (`maxToMin`, ties by descending index) and the level
+boundaries `hdrLevels` (`1 ≤ j < n` with `j = 1` or a sample lower than its predecessor), the result row of
+fraction `f` is that of the FIRST level `j` whose accumulated mass reaches it,
+`f ≤ hdrSeen j = Σ_{k<j}(x_(k) − low_j) / Σdata`, `low_j = x_(j)` if `only_upper_part` else 0:
+* intervals `hdrRow bufSize (sorted max_to_min[:j])` — the maximal runs of the selected sample set, or all `-1`
+  when they do not fit (`hdr_intervals_spec`),
+* amplitude `(1 − g)·mean(selection) + g·low_j`, `g = f / hdrSeen j` (`hdrRowAt`, exact rationals);
+if no level reaches `f`: the whole range `[0, n)` with amplitude `(1 − f)·mean(data)` (`hdrWhole`).
+A non-positive total is rejected with `ValueError`. -/
+theorem hdr_spec (data fractions : List Rat) (upper : Bool) (bufSize : Nat) (hs : fractions.Pairwise (· ≤ ·)) :
+    highestDensityRegion data fractions upper bufSize =
+      if data.sum ≤ 0 then .error .valueError
+      else .ok (fractions.map (hdrSpecOver data (maxToMin data) data.sum upper bufSize (hdrLevels data))) := by
+  by_cases hp : data.sum ≤ 0
+  · unfold highestDensityRegion; simp [hp]
+  · simp only [hp, if_false]
+    exact highestDensityRegion_eq data fractions upper bufSize hs (Rat.not_le.mp hp)
+
+/-- the interval part of a row, for every selection `max_to_min[:j]`: exactly `_buffer_size` slots — the maximal
+runs followed by zero slots when they fit, all `-1` when there are more runs than slots (code after the fix of
+D30); the runs cover exactly the selected indices, are non-empty and maximal; no unselected sample is higher than
+a selected one; selection + rest is a permutation of all indices -/
+theorem hdr_intervals_spec (data : List Rat) (bufSize j : Nat) :
+    let order := maxToMin data
+    let ind := sortNat (order.take j)
+    (hdrRow bufSize ind).length = bufSize ∧
+    ((runsOf ind).length ≤ bufSize → hdrRow bufSize ind =
+      ((runsOf ind).map fun r => ((r.1 : Int), (r.2 : Int))) ++ List.replicate (bufSize - (runsOf ind).length) (0, 0)) ∧
+    (bufSize < (runsOf ind).length → hdrRow bufSize ind = List.replicate bufSize (-1, -1)) ∧
+    runIndices (runsOf ind) = ind ∧ RunsSeparated (runsOf ind) ∧ ind.Perm (order.take j) ∧
+    (∀ a ∈ order.take j, ∀ b ∈ order.drop j, data.getD b 0 ≤ data.getD a 0) ∧
+    (order.take j ++ order.drop j).Perm (List.range data.length) := by
+  intro order ind
   obtain ⟨r1, r2, r3, r4, r5⟩ := hdr_region data j
   obtain ⟨s1, s2, s3⟩ := hdrRow_spec bufSize (sortNat ((maxToMin data).take j))
   exact ⟨s1, s2, s3, r1, r2, r3, r4, r5⟩
@@ -431,7 +558,8 @@ two-slot buffer (an out-of-bounds write in the real code) -/
 theorem hdr_buffer_old_counterexample :
     (hdrRowGen false 2 [0, 2, 4]).length = 3 ∧ hdrRowGen true 2 [0, 2, 4] = [(-1, -1), (-1, -1)] := by decide
 
-example : ((highestDensityRegion [1, 2, 6, 3, 1] [1/2, 4/5] false 3).toOption.map (·.map (·.1)))
-    = some [[(2, 4), (0, 0), (0, 0)], [(1, 4), (0, 0), (0, 0)]] := by decide +kernel
+example : ((highestDensityRegion [1, 2, 6, 3, 1] [1/2, 4/5] false 3).toOption)
+    = some [([(2, 4), (0, 0), (0, 0)], 5/4), ([(1, 4), (0, 0), (0, 0)], 1/5)] := by decide +kernel
+example : hdrLevels [1, 2, 6, 3, 1] = [1, 2, 3] := by decide +kernel
 
 end Strax.C19
